@@ -159,6 +159,46 @@ def search(ctx):
                 report("rep_indep:" + k, "log depends on the representation / quaternion sign: %s differs from the DCM log" % k,
                        {"q": q.tolist(), k: v.tolist(), "Dcm": ref.tolist()}, np.max(np.abs(v - ref)), tol)
     ctx.samples.extend(found[:3] or [{"q": nl.unit_quat(rng).round(4).tolist()}])
+    # every Euler group the class can build (body- and space-fixed, any axis sequence), not only the packaged B321 instance:
+    # to_Matrix against the product of elementary rotations, log against the principal rotation vector of that matrix
+    try:
+        import casadi as ca
+        from cyecca.lie.group_so3 import SO3EulerLieGroup, EulerType, Axis
+        elem = {"x": lambda a: np.array([[1, 0, 0], [0, np.cos(a), -np.sin(a)], [0, np.sin(a), np.cos(a)]]),
+                "y": lambda a: np.array([[np.cos(a), 0, np.sin(a)], [0, 1, 0], [-np.sin(a), 0, np.cos(a)]]),
+                "z": lambda a: np.array([[np.cos(a), -np.sin(a), 0], [np.sin(a), np.cos(a), 0], [0, 0, 1]])}
+        seqs = ["zyx", "xyz", "zxz", "yxz", "xzx", "zyz"]
+        for ty in (EulerType.body_fixed, EulerType.space_fixed):
+            for sq in seqs:
+                G = SO3EulerLieGroup(euler_type=ty, sequence=[getattr(Axis, c) for c in sq])
+                es = ca.SX.sym("e", 3)
+                fM = ca.Function("m", [es], [G.elem(es).to_Matrix()])
+                try:
+                    fL = ca.Function("l", [es], [G.elem(es).log().param])
+                except Exception:   # noqa: BLE001  (log not offered for this instance)
+                    fL = None
+                for r in range(2 if ctx.tier == "quick" else 12):
+                    e = rng.uniform(-1.2, 1.2, 3) * np.array([1.0, 0.9, 1.0])
+                    if r % 2:
+                        e = np.array([0.9, 0.4, -0.7]) * (1 + 0.1 * r)      # first and third angle differ markedly
+                    Rs = [elem[c](a) for c, a in zip(sq, e)]
+                    Ror = np.eye(3)
+                    for Rk in Rs:
+                        Ror = Ror @ Rk if ty == EulerType.body_fixed else Rk @ Ror
+                    M = np.array(fM(e), dtype=float); ev += 1
+                    inp = {"euler_type": ty.name, "sequence": sq, "angles": e.tolist()}
+                    if not np.max(np.abs(M - Ror)) <= 1e-9:
+                        report("SO3Euler:%s:toMatrix" % ty.name, "to_Matrix of a %s Euler group is not the product of the elementary rotations" % ty.name,
+                               inp, np.max(np.abs(M - Ror)), 1e-9)
+                    if fL is not None:
+                        w = np.array(fL(e), dtype=float).ravel()
+                        ang = np.arccos(np.clip((np.trace(Ror) - 1) / 2, -1, 1))
+                        wref = ang / (2 * np.sin(ang)) * np.array([Ror[2, 1] - Ror[1, 2], Ror[0, 2] - Ror[2, 0], Ror[1, 0] - Ror[0, 1]]) if ang > 1e-6 else np.zeros(3)
+                        if ang < 3.0 and not np.max(np.abs(w - wref)) <= 1e-7:
+                            report("SO3Euler:%s:log" % ty.name, "log of a %s Euler triple is not the principal rotation vector of the rotation it represents" % ty.name,
+                                   inp, np.max(np.abs(w - wref)), 1e-7)
+    except ImportError:
+        pass
     return found, {"evaluations": ev, "distinct_nontrivial": ev}
 
 
